@@ -312,6 +312,18 @@ def _selftest_call():
     return call
 
 
+def _selftest_dyn_call(racy):
+    def call(lib):
+        if racy:
+            lib.seam_selftest_racy_counter_dynamic.restype = ctypes.c_int
+            return repr(lib.seam_selftest_racy_counter_dynamic(4)).encode()
+        out = np.zeros(7, np.int32)
+        lib.seam_selftest_dynamic_sum.restype = ctypes.c_int
+        r = lib.seam_selftest_dynamic_sum(7, out.ctypes.data_as(ctypes.c_void_p))
+        return repr(r).encode() + out.tobytes()
+    return call
+
+
 def mc_job(args):
     kind, params, T, bound, seed, repo = args
     from vlib import build
@@ -325,6 +337,10 @@ def mc_job(args):
         call = _center_call(*params, rng)
     elif kind == "nlist":
         call = _nlist_call(params[0], rng, params[1])
+    elif kind == "selftest-dynamic-racy":
+        call = _selftest_dyn_call(True)
+    elif kind == "selftest-dynamic-sum":
+        call = _selftest_dyn_call(False)
     else:
         call = _selftest_call()
     ref = mc.run(1, [], call)["out"]
@@ -334,7 +350,7 @@ def mc_job(args):
     # preemption there (bound 1, brute force); must see the same set of outputs
     stats["all_points_executions"] = 0
     stats["all_points"] = 0
-    if kind != "selftest":
+    if not kind.startswith("selftest"):
         r0 = mc.run(T, [], call, all_points=True)
         stats["all_points"] = int(r0["steps"])
         if r0["steps"] <= 20000:
@@ -417,17 +433,29 @@ def run(ctx):
             flat_fns.append(name)
     # ---------------- (b)
     from vlib import build
-    build.build_kernlib("ompseam", ctx.repo, "mc")      # built once here; the workers find it in the cache
+    seam_ok = True
+    try:
+        from vlib.sched import driver as _drv
+        _drv.MC(build.build_kernlib("ompseam", ctx.repo, "mc"))      # built once here; the workers find it in the cache
+    except Exception as e:  # noqa  (kernel signature changed, or an OpenMP construct the green-thread runtime does not provide)
+        seam_ok = False
+        print("WARNING C08: the schedule-exploration seam could not be built/loaded against this tree (%s: %s); layer (b) skipped"
+              % (type(e).__name__, str(e)[:200]))
+        ctx.assume("layer (b) (schedule exploration of the hand-written OpenMP kernels) skipped: seam not buildable against this tree: %s" % str(e)[:160])
     bound = 2 if ctx.quick else 3
-    jobs = [("selftest", (), 2, 1, ctx.seed, ctx.repo)]
-    for T in (2, 3):
+    jobs = [("selftest", (), 2, 1, ctx.seed, ctx.repo), ("selftest-dynamic-racy", (), 2, 1, ctx.seed, ctx.repo),
+            ("selftest-dynamic-sum", (), 3, 2, ctx.seed, ctx.repo)] if seam_ok else []
+    for T in ((2, 3) if seam_ok else ()):
         jobs += [("sasa", (2, 3, 4), T, bound, ctx.seed, ctx.repo), ("sasa", (3, 2, 3), T, bound, ctx.seed, ctx.repo),
                  ("sasa", (4, 2, 2), T, bound, ctx.seed, ctx.repo),
                  ("center", (3, 5), T, bound, ctx.seed, ctx.repo), ("center", (5, 4), T, bound, ctx.seed, ctx.repo),
                  ("nlist", (5, None), T, bound, ctx.seed, ctx.repo), ("nlist", (6, [2.0, 2.0, 2.0] + [0.0] * 6), T, bound, ctx.seed, ctx.repo)]
     b2jobs = [(m, ctx.repo, ctx.overlay, 1 if ctx.quick else 2, ctx.seed) for m in ("mdtraj._rmsd", "mdtraj.geometry.drid")]
     for m in ("mdtraj._rmsd", "mdtraj.geometry.drid"):
-        build.build_mc_module(m, ctx.repo)              # built once here; the subprocesses find it in the cache
+        try:
+            build.build_mc_module(m, ctx.repo)          # built once here; the subprocesses find it in the cache
+        except Exception as e:  # noqa  (reported per module by mcmod_job below as 'could not run')
+            print("WARNING C08: instrumented build of %s failed: %s" % (m, str(e)[:160]))
     import concurrent.futures as cf
     b2pool = cf.ThreadPoolExecutor(2)
     b2futs = [b2pool.submit(mcmod_job, j) for j in b2jobs]        # run while the other layers proceed
@@ -440,6 +468,12 @@ def run(ctx):
             selftest_caught = bool(viol)
             b_table.append({"kernel": "selftest racy counter", "T": T, "executions": stats["executions"], "caught": selftest_caught})
             continue
+        if kind == "selftest-dynamic-racy":
+            b_table.append({"kernel": "selftest racy counter in a schedule(dynamic,1) loop", "T": T, "executions": stats["executions"], "caught": bool(viol)})
+            if not viol:
+                ctx.violation("mc|selftest-dynamic|not-caught", "the explorer did not find the seeded lost update inside a dynamically scheduled "
+                              "loop: chunk hand-out is not being explored", {"layer": "b", "kind": "selftest-dynamic-racy"})
+            continue
         ctx.report(viol)
         b_exec += stats["executions"]
         b_points += stats["points"]
@@ -448,7 +482,7 @@ def run(ctx):
                         "conflicting_granules": stats["conflicting_granules"], "distinct_outputs": stats["distinct_outputs"],
                         "all_instrumented_accesses": stats["all_points"], "all_points_bound1_executions": stats["all_points_executions"]})
         b_exec += stats["all_points_executions"]
-    if not selftest_caught:
+    if seam_ok and not selftest_caught:
         ctx.violation("mc|selftest|not-caught", "the explorer did not find the seeded lost update in the harness self-test: "
                       "schedule exploration is not working", {"layer": "b", "kind": "selftest"})
     # ---------------- (b2) results
@@ -456,7 +490,9 @@ def run(ctx):
     for fut in b2futs:
         mod, results, err = fut.result()
         if results is None:
-            ctx.violation("mcmod|%s|run-failed" % mod, "instrumented-module exploration failed: %s" % err, {"layer": "b2", "module": mod})
+            # the harness could not run (build/link/import of the instrumented module): not a statement about the property
+            print("WARNING C08: instrumented-module exploration of %s could not run (%s); layer (b2) skipped for it" % (mod, str(err)[:200]))
+            ctx.assume("layer (b2) skipped for %s: %s" % (mod, str(err)[:160]))
             continue
         for r in results:
             if r.get("error"):
